@@ -129,6 +129,14 @@ pub fn run(ctx: &mut Ctx) {
             let s = format!("{}ixteenbyteslong", c); emit(ctx, op, "case-mapping special", &s, "");
         }
     }
+    // long strings around the wrap-around points of narrower length types (u8: 256, u16: 65536): every
+    // one must be refused as too long, whatever its first 16 characters are
+    for len in [17usize, 20, 32, 255, 256, 257, 258, 264, 271, 272, 273, 300, 511, 512, 513, 520, 528, 529, 768, 1024] {
+        for (vi, op) in [1u32, 3, 4, 5, 6].iter().enumerate() {
+            let s: String = match vi % 3 { 0 => "a".repeat(len), 1 => (0..len).map(|i| (b'a' + (i % 26) as u8) as char).collect(), _ => { let mut t = "\u{e9}".repeat(len / 2); if len % 2 == 1 { t.push('z'); } t } };
+            emit(ctx, *op, "long string (length-type wrap-around)", &s, "");
+        }
+    }
     // random strings, mostly valid
     let n_rand = if ctx.quick() { 400 } else { 4000 };
     for k in 0..n_rand {
@@ -163,6 +171,14 @@ pub fn run(ctx: &mut Ctx) {
         }
     }
     ctx.exhaustive.push(format!("every Unicode scalar value below U+{:X} as a one-character string (and after a 15-byte prefix for a third of them)", top));
+    // every byte length up to 1100 and around 2^16 / 2^24 (implementation only; these are too long for the model's literals)
+    for len in (17usize..1100).chain(65_520..65_560).chain(16_777_200..16_777_240) {
+        if ctx.quick() && len > 70_000 && len % 8 != 0 { continue; }
+        let s: String = "k".repeat(len);
+        oracle_one(ctx, &s);
+        if len < 1100 || len % 4 == 0 { let t: String = format!("{}{}", "Ab1 ".repeat(len / 4), &"xyz"[..len % 4]); oracle_one(ctx, &t); }
+    }
+    ctx.exhaustive.push("every byte length 17..1099, 65520..65559 and 16777200..16777239 of printable ASCII must be refused as too long by all five constructors".to_string());
     let mut rng = ctx.rng("oracle");
     let n = if ctx.quick() { 200_000 } else { 15_000_000 };
     for k in 0..n {
